@@ -72,6 +72,8 @@ def exp_index(rcases):
 def classify(rec, exp):
     """name the failing quantity (diagnosis only)"""
     op = rec.get("op")
+    if rec.get("tag") == "signedzero":
+        return "signed-zero:%s" % op
     if op == "split":
         e = exp.get(json.dumps(rec["x"]))
         row = rec["r"][0]
@@ -191,6 +193,7 @@ def check(run):
     tied = sum(1 for r in seqs if len(set(r["x"])) < len(r["x"]))
     run.cov["weak_orders_with_ties"] = tied
     run.cov["mk_no_evidence_cases"] = sum(1 for r in seqs if r["pp"][0][2:4] == [1000000000, 0])
+    run.cov["signed_zero_probe_records"] = sum(1 for r in rrecs if r.get("tag") == "signedzero")
     run.cov["bh_cases_family_larger_than_tested"] = sum(1 for c in bcases if c["m"] > len(c["p"]))
     run.cov["bh_cases_expected_panic"] = sum(1 for c in bcases if c["m"] < len(c["p"]))
     run.cov["distinct_ord_p_values"] = {"mk": len({tuple(r["p"]) for r in mk}), "pettitt": len({tuple(r["p"]) for r in pt})}
@@ -219,7 +222,8 @@ def selftest():
     write_ndjson(f, cases)
     t = os.path.join(wd, "t.ndjson")
     vlib.run_bin("h_stats", ["ranks", f, t])
-    recs = read_ndjson(t)
+    recs = [r for r in read_ndjson(t) if r.get("tag") != "signedzero"]     # the probe is a known finding, not a baseline
+    write_ndjson(t, recs)
     cfg = os.path.join(wd, "tr.cfg")
     open(cfg, "w").write(TRACE_CFG)
     ok, rej, _ = validate_trace(D, "Trace_RankStats", t, cfg=cfg)
@@ -251,7 +255,7 @@ def selftest():
     expect("ord-swapped", [mk[1], mk[0]] + mk[2:])
     b = [{"op": "bh", "p": [[1, 16], [1, 2]], "q": [1, 4], "m": 2, "panic": 0, "keep": [1, 1]}]
     expect("bh-keeps-too-much", b)
-    b = [{"op": "bh", "p": [[1, 16], [1, 2]], "q": [1, 4], "m": 4, "panic": 0, "keep": [1, 0]}]
+    b = [{"op": "bh", "p": [[1, 8]], "q": [1, 4], "m": 4, "panic": 0, "keep": [1]}]      # 1/8 > (1/4) * (1/4)
     expect("bh-ignores-family-size", b)
     return 1 if fails else 0
 
